@@ -13,7 +13,7 @@
 From Coq Require Import List.
 Import ListNotations.
 From WB Require Import Base.Str Base.Json Model.Key Model.Consts Model.Store Model.Match Model.Subs Model.Entry Model.Core
-  Proofs.SubsFacts Proofs.MatchFacts Proofs.CoreFacts Proofs.C01Proof Proofs.C03Proof Proofs.StreamProof Proofs.StreamAll Proofs.FoldProof Proofs.FoldImport Proofs.NoCrash Proofs.Unconditional.
+  Proofs.SubsFacts Proofs.MatchFacts Proofs.CoreFacts Proofs.C01Proof Proofs.C03Proof Proofs.StreamProof Proofs.StreamAll Proofs.FoldProof Proofs.FoldImport Proofs.NoCrash Proofs.Unconditional Model.Conc Proofs.ConcFacts.
 From WB Require Import Proofs.GoodNames Proofs.TreeInv Proofs.StoreFacts.
 
 (* routing through the subscriber tree = the relation sub_match on the registered position *)
@@ -286,3 +286,36 @@ Example C03_nonvacuous :
                           OSet 1 [97;47;98] (JNum [49]) false; OUnsubscribe 2 1; OSet 1 [97;47;98] (JNum [50]) false]) =
   [[(0, EPValue [])]; [(0, EPValue [([97;47;98], JNum [49])])]; [(0, EPValue [([97;47;98], JNum [49])])]; []; []].
 Proof. vm_compute. reflexivity. Qed.
+
+(* ---- from the subscription's channel to the socket (Model/Conc.v, Proofs/ConcFacts.v) ----
+   The core task puts the events into the channel of the subscription; a forwarding task, spawned by the session's
+   serve loop after it wrote the Ack, moves them one by one into the channel of the socket writer, which it shares
+   with the serve loop and the forwarders of the session's other subscriptions.  For EVERY schedule [es] of these
+   tasks: what the socket writer was handed of subscription i, followed by what still waits in i's channel, is
+   [stream i] of the serial run of the requests served so far (whose content C03_stream_all gives) -- in that
+   order, nothing dropped, nothing twice, nothing of it on another session's socket, nothing of it before the Ack.
+   Assumed of the runtime: channels are FIFO. *)
+Theorem C03_wire_carries_the_stream :
+  forall es i sn, c_owner (crun es) i = Some sn ->
+    evs_of (item_proj i (c_wire (crun es) sn)) ++ evs_of (c_subq (crun es) i) = stream i init (map snd (c_served (crun es))).
+Proof. exact conc_stream. Qed.
+Print Assumptions C03_wire_carries_the_stream.
+
+Theorem C03_drained_channel_is_the_whole_stream :
+  forall es i sn, c_owner (crun es) i = Some sn -> c_subq (crun es) i = [] ->
+    evs_of (item_proj i (c_wire (crun es) sn)) = stream i init (map snd (c_served (crun es))).
+Proof. exact conc_drained. Qed.
+Print Assumptions C03_drained_channel_is_the_whole_stream.
+
+Theorem C03_nobody_elses_socket :
+  forall es i sn, c_owner (crun es) i <> Some sn -> item_proj i (c_wire (crun es) sn) = [].
+Proof. exact conc_private. Qed.
+Print Assumptions C03_nobody_elses_socket.
+
+Example C03_wire_nonvacuous :
+  let es := [CPost 0 (OSubscribe 1 7 [107] false false); CPost 1 (OSet 2 [107] (JNum [49]) false); CServe; CServe; CAnswer 1;
+             CPost 1 (OSet 2 [107] (JNum [50]) false); CServe; CAnswer 0; CForward 0; CAnswer 1] in
+  c_owner (crun es) 0 = Some 0%N /\
+  c_wire (crun es) 0 = [WAns (OSubscribe 1 7 [107] false false) (RSub 0); WItem 0 (IEv (EValue (JNum [49])))] /\
+  c_subq (crun es) 0 = [IEv (EValue (JNum [50]))].
+Proof. vm_compute. repeat split; reflexivity. Qed.
